@@ -1,5 +1,673 @@
-//! stream `par` (stub; replaced by its builder)
-pub fn generate(_seed: u64, _cases: usize, _out: &mut Vec<String>) {}
-pub fn run(_toks: &[&str]) -> String {
-    "bad-op".to_string()
+//! Stream `par` — C17: partition sources (`parallel/source.rs`), rayon fold/reduce helpers
+//! (`parallel/fold.rs`) and the morsel scheduler (`parallel/scheduler.rs`).
+//!
+//! `par src <kind> <data> <morsels> <cs>`        rows of the whole source vs rows of its partitions
+//! `par src.chunks <kind> <data> <morsels> <cs>` chunk sizes of the same runs + reset check
+//! `par fold <fn> <items> <threads>`             the helper inside rayon pools of the listed sizes
+//! `par sched <workers> <numa> <program>`        scripted single-threaded drive of the scheduler
+use crate::util::*;
+use grafeo_common::types::{NodeId, Value};
+use grafeo_core::execution::parallel::fold::{
+    fold_reduce, fold_reduce_with, parallel_count, parallel_max, parallel_min, parallel_partition, parallel_stats,
+    parallel_sum, parallel_sum_i64, parallel_try_collect,
+};
+use grafeo_core::execution::parallel::{
+    Morsel, MorselScheduler, NumaConfig, ParallelChunkSource, ParallelNodeScanSource, ParallelSource,
+    ParallelTripleScanSource, ParallelVectorSource, RangeSource, WorkerHandle,
+};
+use grafeo_core::execution::{DataChunk, Source, ValueVector};
+use grafeo_core::graph::lpg::LpgStore;
+use rayon::prelude::*;
+use std::panic::{AssertUnwindSafe, catch_unwind};
+use std::sync::{Arc, OnceLock};
+
+type Row = Vec<i64>;
+
+// ---------------------------------------------------------------------------------------------
+// sources
+// ---------------------------------------------------------------------------------------------
+
+fn ints(s: &str) -> Option<Vec<i64>> {
+    if s == "-" || s == "_" {
+        return Some(vec![]);
+    }
+    s.split(',').map(|t| t.parse().ok()).collect()
+}
+
+fn vals(xs: &[i64]) -> Vec<Value> {
+    xs.iter().map(|&v| Value::Int64(v)).collect()
+}
+
+/// (source, stored chunk count for the call cap of the whole source)
+fn build(kind: &str, data: &str) -> Option<(Box<dyn ParallelSource>, usize)> {
+    Some(match kind {
+        "vec" => {
+            let cols: Vec<Vec<Value>> = if data == "none" {
+                vec![]
+            } else {
+                data.split('/').map(|c| ints(c).map(|v| vals(&v))).collect::<Option<_>>()?
+            };
+            (Box::new(ParallelVectorSource::new(cols)), 0)
+        }
+        "range" => (Box::new(RangeSource::new(data.parse().ok()?)), 0),
+        "triple" => {
+            let t = ints(data)?;
+            let triples = t.iter().map(|&v| (Value::Int64(v), Value::Int64(v + 1), Value::Int64(v + 2))).collect();
+            (Box::new(ParallelTripleScanSource::new(triples, vec!["s".into(), "p".into(), "o".into()])), 0)
+        }
+        "node" => {
+            let t = ints(data)?;
+            let ids: Vec<NodeId> = t.iter().map(|&v| NodeId::new(v as u64)).collect();
+            (Box::new(ParallelNodeScanSource::from_node_ids(Arc::new(LpgStore::new()), ids)), 0)
+        }
+        "chunk" => {
+            let chunks: Vec<DataChunk> = if data == "-" {
+                vec![]
+            } else {
+                data.split('|')
+                    .map(|c| ints(c).map(|v| DataChunk::new(vec![ValueVector::from_values(&vals(&v))])))
+                    .collect::<Option<_>>()?
+            };
+            let n = chunks.len();
+            (Box::new(ParallelChunkSource::new(chunks)), n)
+        }
+        _ => return None,
+    })
+}
+
+fn chunk_rows(chunk: &DataChunk) -> Vec<Row> {
+    let n = chunk.column_count();
+    chunk
+        .selected_indices()
+        .map(|i| {
+            (0..n)
+                .map(|c| {
+                    let col = chunk.column(c).unwrap();
+                    match col.get_node_id(i) {
+                        Some(id) => id.as_u64() as i64,
+                        None => match col.get_value(i) {
+                            Some(Value::Int64(v)) => v,
+                            _ => i64::MIN,
+                        },
+                    }
+                })
+                .collect()
+        })
+        .collect()
+}
+
+#[derive(Clone, PartialEq)]
+enum Drained {
+    Ok(Vec<Vec<Row>>),
+    Loop,
+    Panic,
+}
+
+/// at most `cap` calls of `next_chunk`
+fn drain(src: &mut dyn Source, cs: usize, cap: usize) -> Drained {
+    let r = catch_unwind(AssertUnwindSafe(|| {
+        let mut out = Vec::new();
+        for _ in 0..cap {
+            match src.next_chunk(cs) {
+                Ok(Some(c)) => out.push(chunk_rows(&c)),
+                Ok(None) => return Drained::Ok(out),
+                Err(_) => return Drained::Panic,
+            }
+        }
+        Drained::Loop
+    }));
+    r.unwrap_or(Drained::Panic)
+}
+
+fn show_row(r: &Row) -> String {
+    r.iter().map(|v| v.to_string()).collect::<Vec<_>>().join(".")
+}
+
+fn parse_morsels(s: &str, src: &dyn ParallelSource) -> Option<Vec<Morsel>> {
+    if let Some(sz) = s.strip_prefix('g') {
+        return Some(src.generate_morsels(sz.parse().ok()?, 0));
+    }
+    if s == "-" {
+        return Some(vec![]);
+    }
+    s.split(',')
+        .enumerate()
+        .map(|(i, t)| {
+            let (a, b) = t.split_once('-')?;
+            Some(Morsel::new(i, 0, a.parse().ok()?, b.parse().ok()?))
+        })
+        .collect()
+}
+
+fn run_src(chunks_view: bool, kind: &str, data: &str, morsels: &str, cs: &str) -> String {
+    let Some((mut src, nchunks)) = build(kind, data) else { return "bad-op".into() };
+    let Ok(cs) = cs.parse::<usize>() else { return "bad-op".into() };
+    let Some(ms) = parse_morsels(morsels, src.as_ref()) else { return "bad-op".into() };
+    let n0 = src.total_rows().unwrap_or(0);
+    let wcap = n0 + nchunks + 2;
+    let whole = drain(src.as_mut(), cs, wcap);
+    let mut reset_ok = true;
+    if let Drained::Ok(_) = whole {
+        src.reset();
+        reset_ok &= drain(src.as_mut(), cs, wcap) == whole;
+    }
+    let mut parts = Vec::new();
+    for m in &ms {
+        let mut p = src.create_partition(m);
+        let d = drain(p.as_mut(), cs, m.end_row + 2);
+        if let Drained::Ok(_) = d {
+            p.reset();
+            reset_ok &= drain(p.as_mut(), cs, m.end_row + 2) == d;
+        }
+        parts.push(d);
+    }
+    if chunks_view {
+        let sizes = |d: &Drained| match d {
+            Drained::Ok(cs) if cs.is_empty() => "-".to_string(),
+            Drained::Ok(cs) => cs.iter().map(|c| c.len().to_string()).collect::<Vec<_>>().join(","),
+            Drained::Loop => "loop".into(),
+            Drained::Panic => "panic".into(),
+        };
+        let p = if parts.is_empty() { "-".to_string() } else { parts.iter().map(sizes).collect::<Vec<_>>().join(";") };
+        format!("W={} P={} reset={}", sizes(&whole), p, if reset_ok { "ok" } else { "differs" })
+    } else {
+        let rows = |ds: &[Drained]| {
+            let mut all: Vec<String> = Vec::new();
+            for d in ds {
+                match d {
+                    Drained::Ok(cs) => all.extend(cs.iter().flatten().map(show_row)),
+                    Drained::Loop => return "loop".to_string(),
+                    Drained::Panic => return "panic".to_string(),
+                }
+            }
+            if all.is_empty() { "-".into() } else { all.join(",") }
+        };
+        format!("W={} P={}", rows(std::slice::from_ref(&whole)), rows(&parts))
+    }
+}
+
+// ---------------------------------------------------------------------------------------------
+// fold
+// ---------------------------------------------------------------------------------------------
+
+fn pool(threads: usize) -> &'static rayon::ThreadPool {
+    static POOLS: OnceLock<Vec<rayon::ThreadPool>> = OnceLock::new();
+    let pools = POOLS.get_or_init(|| (0..=8).map(|t| rayon::ThreadPoolBuilder::new().num_threads(t.max(1)).build().unwrap()).collect());
+    &pools[threads.min(8)]
+}
+
+/// `Ord` looks at the key only; the tag tells equal elements apart
+#[derive(Clone, Copy, Debug)]
+struct KV(i64, u32);
+impl PartialEq for KV {
+    fn eq(&self, o: &Self) -> bool {
+        self.0 == o.0
+    }
+}
+impl Eq for KV {}
+impl PartialOrd for KV {
+    fn partial_cmp(&self, o: &Self) -> Option<std::cmp::Ordering> {
+        Some(self.cmp(o))
+    }
+}
+impl Ord for KV {
+    fn cmp(&self, o: &Self) -> std::cmp::Ordering {
+        self.0.cmp(&o.0)
+    }
+}
+
+fn show_f(x: f64) -> String {
+    if x.is_nan() {
+        "nan".into()
+    } else if x.fract() == 0.0 && x.abs() < 9.0e18 {
+        (x as i64).to_string()
+    } else {
+        format!("{:016x}", x.to_bits())
+    }
+}
+
+fn show_ints(xs: &[i64]) -> String {
+    if xs.is_empty() { "-".into() } else { join(xs) }
+}
+
+fn fold_once(f: &str, items: &str) -> Option<String> {
+    Some(match f {
+        "min" | "max" => {
+            let kvs: Vec<KV> = if items == "-" {
+                vec![]
+            } else {
+                items.split(',').map(|t| t.split_once(':').and_then(|(k, g)| Some(KV(k.parse().ok()?, g.parse().ok()?)))).collect::<Option<_>>()?
+            };
+            let r = if f == "min" { parallel_min(kvs.into_par_iter(), |kv| *kv) } else { parallel_max(kvs.into_par_iter(), |kv| *kv) };
+            r.map_or("N".to_string(), |kv| format!("{}:{}", kv.0, kv.1))
+        }
+        "stats" => {
+            let xs: Vec<f64> = if items == "-" {
+                vec![]
+            } else {
+                items.split(',').map(|t| if t == "nan" { Some(f64::NAN) } else { t.parse::<i64>().ok().map(|v| v as f64) }).collect::<Option<_>>()?
+            };
+            let (c, s, mn, mx) = parallel_stats(xs.into_par_iter(), |x| *x);
+            format!("{};{};{};{}", c, show_f(s), mn.map_or("N".into(), show_f), mx.map_or("N".into(), show_f))
+        }
+        _ => {
+            let xs = ints(items)?;
+            match f {
+                "count" => parallel_count(xs.into_par_iter(), |x| x % 2 == 0).to_string(),
+                "sum_i64" => parallel_sum_i64(xs.into_par_iter(), |x| *x).to_string(),
+                "sumf" => format!("{:016x}", parallel_sum(xs.into_par_iter(), |x| *x as f64).to_bits()),
+                "try" => {
+                    let (ok, err) = parallel_try_collect(xs.into_par_iter(), |x| if x.rem_euclid(3) == 0 { Err(x) } else { Ok(x) });
+                    format!("{}/{}", show_ints(&ok), show_ints(&err))
+                }
+                "part" => {
+                    let m = parallel_partition(xs.into_par_iter(), |x| x.rem_euclid(4), |x| x);
+                    let mut ks: Vec<_> = m.into_iter().collect();
+                    ks.sort_by_key(|(k, _)| *k);
+                    if ks.is_empty() { "-".into() } else { ks.iter().map(|(k, v)| format!("{}={}", k, join(v))).collect::<Vec<_>>().join(";") }
+                }
+                "fr" => {
+                    let v: Vec<i64> = fold_reduce(xs.into_par_iter(), |mut acc: Vec<i64>, x| { acc.push(x); acc }, |mut a, b| { a.extend(b); a });
+                    show_ints(&v)
+                }
+                "frw" => fold_reduce_with(xs.into_par_iter(), || 100i64, |a, x| a + x, |a, b| a + b - 100).to_string(),
+                "frwbad" => fold_reduce_with(xs.into_par_iter(), || 100i64, |a, x| a + x, |a, b| a + b).to_string(),
+                _ => return None,
+            }
+        }
+    })
+}
+
+fn run_fold(f: &str, items: &str, threads: &str) -> String {
+    let Some(ts) = parse_u64s(threads) else { return "bad-op".into() };
+    if ts.is_empty() || ts.iter().any(|&t| t == 0 || t > 8) {
+        return "bad-op".into();
+    }
+    let mut out = Vec::new();
+    for t in ts {
+        let r = catch_unwind(AssertUnwindSafe(|| pool(t as usize).install(|| fold_once(f, items))));
+        match r {
+            Ok(Some(s)) => out.push(s),
+            Ok(None) => return "bad-op".into(),
+            Err(_) => out.push("panic".into()),
+        }
+    }
+    out.join("|")
+}
+
+// ---------------------------------------------------------------------------------------------
+// scheduler
+// ---------------------------------------------------------------------------------------------
+
+fn run_sched(workers: &str, numa: &str, program: &str) -> String {
+    let Ok(w) = workers.parse::<usize>() else { return "bad-op".into() };
+    if w > 16 {
+        return "bad-op".into();
+    }
+    let sched = if numa == "d" {
+        MorselScheduler::new(w)
+    } else if let Some((a, b)) = numa.strip_prefix('n').and_then(|r| r.split_once('x')) {
+        let (Ok(a), Ok(b)) = (a.parse::<usize>(), b.parse::<usize>()) else { return "bad-op".into() };
+        if b == 0 {
+            return "bad-op".into();
+        }
+        MorselScheduler::with_numa_config(w, NumaConfig::with_topology(a, b))
+    } else {
+        return "bad-op".into();
+    };
+    let sched = Arc::new(sched);
+    let handles: Vec<WorkerHandle> = (0..w).map(|_| WorkerHandle::new(Arc::clone(&sched))).collect();
+    let mk = |id: usize| Morsel::new(id, 0, id * 10, id * 10 + 10);
+    let show = |m: Option<Morsel>| m.map_or("N".to_string(), |m| m.id.to_string());
+    let mut out = Vec::new();
+    if program != "-" {
+        for step in program.split(';') {
+            let (op, arg) = step.split_at(1.min(step.len()));
+            let widx = |s: &str| s.parse::<usize>().ok().filter(|&i| i < w);
+            let ret = match op {
+                "s" => {
+                    let Ok(id) = arg.parse::<usize>() else { return "bad-op".into() };
+                    sched.submit(mk(id));
+                    ".".to_string()
+                }
+                "b" => {
+                    let ids: Option<Vec<usize>> = if arg.is_empty() { Some(vec![]) } else { arg.split('.').map(|t| t.parse().ok()).collect() };
+                    let Some(ids) = ids else { return "bad-op".into() };
+                    sched.submit_batch(ids.into_iter().map(mk).collect());
+                    ".".to_string()
+                }
+                "f" if arg.is_empty() => {
+                    sched.finish_submission();
+                    ".".to_string()
+                }
+                "G" if arg.is_empty() => show(sched.get_global_work()),
+                "g" => {
+                    let Some(i) = widx(arg) else { return "bad-op".into() };
+                    show(handles[i].get_work())
+                }
+                "t" => {
+                    // steal_work takes any id (ids ≥ number of stealers are not rejected)
+                    let Ok(i) = arg.parse::<usize>() else { return "bad-op".into() };
+                    if i > 64 {
+                        return "bad-op".into();
+                    }
+                    show(sched.steal_work(i))
+                }
+                "p" => {
+                    let Some((a, b)) = arg.split_once('.') else { return "bad-op".into() };
+                    let (Some(i), Ok(id)) = (widx(a), b.parse::<usize>()) else { return "bad-op".into() };
+                    handles[i].push_local(mk(id));
+                    ".".to_string()
+                }
+                "c" => {
+                    let Some(i) = widx(arg) else { return "bad-op".into() };
+                    handles[i].complete_morsel();
+                    ".".to_string()
+                }
+                _ => return "bad-op".into(),
+            };
+            out.push(format!("{}/{}/{}", ret, sched.active_count(), if sched.is_done() { 1 } else { 0 }));
+        }
+    }
+    format!("{} T={} S={}", if out.is_empty() { "-".to_string() } else { out.join(",") }, sched.total_submitted(), if sched.is_submission_done() { 1 } else { 0 })
+}
+
+pub fn run(toks: &[&str]) -> String {
+    guarded(|| match toks {
+        ["src", kind, data, morsels, cs] => run_src(false, kind, data, morsels, cs),
+        ["src.chunks", kind, data, morsels, cs] => run_src(true, kind, data, morsels, cs),
+        ["fold", f, items, threads] => run_fold(f, items, threads),
+        ["sched", w, numa, program] => run_sched(w, numa, program),
+        _ => "bad-op".to_string(),
+    })
+}
+
+// ---------------------------------------------------------------------------------------------
+// generator
+// ---------------------------------------------------------------------------------------------
+
+fn gen_ints(r: &mut Rng, n: usize, span: i64) -> Vec<i64> {
+    (0..n).map(|_| r.below((2 * span + 1) as u64) as i64 - span).collect()
+}
+
+fn list_or_dash(xs: &[i64]) -> String {
+    if xs.is_empty() { "-".into() } else { join(xs) }
+}
+
+fn gen_n(r: &mut Rng) -> usize {
+    match r.below(6) {
+        0 => r.below(4) as usize,
+        1 => *r.pick(&[7usize, 8, 9, 15, 16, 17, 31, 32, 33]),
+        _ => r.range(1, 40) as usize,
+    }
+}
+
+/// morsel token for a table of n rows; returns (token, class)
+fn gen_morsels(r: &mut Rng, n: usize) -> (String, &'static str) {
+    match r.below(10) {
+        0..=3 => {
+            let size = match r.below(6) {
+                0 => r.below(3) as usize,
+                1 => n.saturating_sub(1),
+                2 => n,
+                3 => n + 1,
+                _ => r.range(1, 12) as usize,
+            };
+            (format!("g{}", size), if size == 0 { "gen0" } else { "gen" })
+        }
+        4..=7 => {
+            // contiguous cover of 0..n, empty morsels allowed
+            let mut cuts: Vec<usize> = (0..r.below(6)).map(|_| r.below(n as u64 + 1) as usize).collect();
+            cuts.push(0);
+            cuts.push(n);
+            cuts.sort_unstable();
+            if r.chance(3, 4) {
+                cuts.dedup();
+            }
+            let ms: Vec<String> = cuts.windows(2).map(|w| format!("{}-{}", w[0], w[1])).collect();
+            if ms.is_empty() { ("-".into(), "none") } else { (ms.join(","), "contig") }
+        }
+        8 => {
+            // arbitrary ranges inside the table: gaps, overlaps, reversed bounds
+            let k = r.range(1, 4);
+            let ms: Vec<String> = (0..k).map(|_| format!("{}-{}", r.below(n as u64 + 1), r.below(n as u64 + 1))).collect();
+            (ms.join(","), "arbitrary")
+        }
+        _ => {
+            // reaching beyond the table
+            let k = r.range(1, 3);
+            let ms: Vec<String> = (0..k).map(|_| format!("{}-{}", r.below(n as u64 + 3), n as u64 + r.below(4))).collect();
+            (ms.join(","), "beyond")
+        }
+    }
+}
+
+fn gen_cs(r: &mut Rng, n: usize) -> usize {
+    match r.below(12) {
+        0 => 0,
+        1 => n.max(1),
+        2 => n + 1,
+        3 => 2048,
+        _ => r.range(1, 9) as usize,
+    }
+}
+
+fn gen_src(r: &mut Rng, out: &mut Vec<String>, st: &mut std::collections::BTreeMap<String, usize>) {
+    let n = gen_n(r);
+    let kind = *r.pick(&["vec", "vec", "range", "triple", "node", "chunk", "chunk", "chunk"]);
+    let data = match kind {
+        "vec" => {
+            if r.chance(1, 25) {
+                "none".to_string()
+            } else {
+                let ncols = r.range(1, 3) as usize;
+                let ragged = r.chance(1, 15);
+                (0..ncols)
+                    .map(|c| {
+                        let len = if ragged && c > 0 { (n + 2).saturating_sub(r.below(4) as usize) } else { n };
+                        list_or_dash(&gen_ints(r, len, 50))
+                    })
+                    .collect::<Vec<_>>()
+                    .join("/")
+            }
+        }
+        "range" => n.to_string(),
+        "triple" => list_or_dash(&gen_ints(r, n, 50)),
+        "node" => list_or_dash(&(0..n).map(|_| r.below(100) as i64).collect::<Vec<_>>()),
+        _ => {
+            // chunks: sizes with zeros (runs of empty chunks) summing to n
+            let mut left = n;
+            let mut cs = Vec::new();
+            while left > 0 || cs.is_empty() || r.chance(1, 6) {
+                let k = if r.chance(1, 4) { 0 } else { r.range(1, 6).min(left as u64) as usize };
+                cs.push(k);
+                left -= k;
+                if cs.len() > 40 {
+                    break;
+                }
+            }
+            if n == 0 && r.chance(1, 3) {
+                "-".to_string()
+            } else {
+                let mut v = 0i64;
+                cs.iter()
+                    .map(|&k| {
+                        let c: Vec<i64> = (0..k).map(|_| { v += 1; v * 3 }).collect();
+                        if c.is_empty() { "_".to_string() } else { join(&c) }
+                    })
+                    .collect::<Vec<_>>()
+                    .join("|")
+            }
+        }
+    };
+    let total = if kind == "chunk" && data != "-" { data.split('|').map(|c| if c == "_" { 0 } else { c.split(',').count() }).sum() } else { n };
+    let (ms, class) = gen_morsels(r, total);
+    let cs = gen_cs(r, total);
+    *st.entry(format!("src.{}.{}{}", kind, class, if cs == 0 { ".cs0" } else { "" })).or_default() += 1;
+    out.push(format!("par src {} {} {} {}", kind, data, ms, cs));
+    out.push(format!("par src.chunks {} {} {} {}", kind, data, ms, cs));
+}
+
+fn gen_fold(r: &mut Rng, out: &mut Vec<String>, st: &mut std::collections::BTreeMap<String, usize>) {
+    let f = *r.pick(&["count", "sum_i64", "sumf", "min", "max", "try", "part", "fr", "frw", "stats", "min", "max", "stats"]);
+    let n = match r.below(5) {
+        0 => r.below(3) as usize,
+        1 => r.range(50, 300) as usize,
+        _ => r.range(1, 24) as usize,
+    };
+    let threads = *r.pick(&["1,2,3,8", "1,2,3,8", "1", "1", "2,8", "3"]);
+    let f = if threads == "1" && r.chance(1, 8) { "frwbad" } else { f };
+    let items = match f {
+        "min" | "max" => {
+            let span = *r.pick(&[1i64, 2, 5]);
+            let ks = gen_ints(r, n, span);
+            if ks.is_empty() { "-".into() } else { ks.iter().enumerate().map(|(i, k)| format!("{}:{}", k, i)).collect::<Vec<_>>().join(",") }
+        }
+        "stats" => {
+            if n == 0 {
+                "-".into()
+            } else {
+                let nan = threads == "1" && r.chance(1, 2);
+                gen_ints(r, n, 9).iter().map(|v| if nan && r.chance(1, 4) { "nan".to_string() } else { v.to_string() }).collect::<Vec<_>>().join(",")
+            }
+        }
+        // overflowing sums / inexact float sums depend on the reduction shape: one-thread pools only
+        "sum_i64" if threads == "1" && r.chance(1, 2) => list_or_dash(&(0..n.min(12)).map(|_| (r.next() as i64) >> 1).collect::<Vec<_>>()),
+        "sum_i64" if r.chance(1, 4) => list_or_dash(&(0..n.min(7)).map(|_| (r.next() >> 4) as i64 - (1i64 << 59)).collect::<Vec<_>>()),
+        "sumf" if threads == "1" && r.chance(1, 2) => {
+            list_or_dash(&(0..n.min(12)).map(|_| *r.pick(&[1i64 << 53, (1i64 << 53) + 2, 1, 1, -1, 3, 1i64 << 54, -(1i64 << 53), (1i64 << 53) + 1])).collect::<Vec<_>>())
+        }
+        "sumf" => list_or_dash(&gen_ints(r, n, 1 << 20)),
+        _ => list_or_dash(&gen_ints(r, n, 20)),
+    };
+    *st.entry(format!("fold.{}", f)).or_default() += 1;
+    out.push(format!("par fold {} {} {}", f, items, threads));
+}
+
+fn gen_sched(r: &mut Rng, out: &mut Vec<String>, st: &mut std::collections::BTreeMap<String, usize>) {
+    let w = *r.pick(&[0usize, 1, 2, 2, 3, 4, 4, 6, 9, 10]);
+    let numa = if r.chance(1, 2) { "d".to_string() } else { format!("n{}x{}", r.range(1, 3), r.range(1, 4)) };
+    let disciplined = r.chance(2, 3);
+    let steps = r.range(0, 28);
+    let mut prog: Vec<String> = Vec::new();
+    let mut next_id = 0usize;
+    let mut finished = false;
+    let mut held: Vec<usize> = vec![0; w.max(1)];
+    for _ in 0..steps {
+        let k = r.below(20);
+        let wi = if w == 0 { 0 } else { r.below(w as u64) as usize };
+        let s = match k {
+            0..=3 if !(disciplined && finished) => {
+                next_id += 1;
+                format!("s{}", next_id - 1)
+            }
+            4 if !(disciplined && finished) => {
+                let c = r.below(4) as usize;
+                let ids: Vec<String> = (next_id..next_id + c).map(|i| i.to_string()).collect();
+                next_id += c;
+                format!("b{}", ids.join("."))
+            }
+            5 if !disciplined || !finished => {
+                finished = true;
+                "f".to_string()
+            }
+            6 => "G".to_string(),
+            7..=11 if w > 0 => {
+                held[wi] += 1;
+                format!("g{}", wi)
+            }
+            12 => format!("t{}", if r.chance(1, 8) { w + r.below(3) as usize } else { wi }),
+            13..=14 if w > 0 && (!disciplined || held[wi] > 0) => {
+                next_id += 1;
+                format!("p{}.{}", wi, next_id - 1)
+            }
+            _ if w > 0 && (!disciplined || held[wi] > 0) => {
+                held[wi] = held[wi].saturating_sub(1);
+                format!("c{}", wi)
+            }
+            _ => "G".to_string(),
+        };
+        prog.push(s);
+    }
+    if disciplined && !finished && r.chance(1, 2) {
+        prog.push("f".into());
+    }
+    *st.entry(format!("sched.{}", if disciplined { "disciplined" } else { "free" })).or_default() += 1;
+    out.push(format!("par sched {} {} {}", w, numa, if prog.is_empty() { "-".to_string() } else { prog.join(";") }));
+}
+
+pub fn generate(seed: u64, cases: usize, out: &mut Vec<String>) {
+    let mut r = Rng::new(seed ^ 0x7061_7221);
+    let mut st = std::collections::BTreeMap::new();
+    // fixed boundary lines
+    for l in [
+        "par src vec - g4 3",
+        "par src vec none g4 3",
+        "par src vec 1,2,3,4,5 g2 1",
+        "par src vec 1,2,3,4,5/6,7,8,9,10 g2 3",
+        "par src.chunks vec 1,2,3,4,5/6,7,8,9,10 g2 3",
+        "par src vec 1,2,3,4,5 g0 2",
+        "par src vec 1,2,3,4,5 g2 0",
+        "par src vec 1,2,3 0-2,2-5 2",
+        "par src vec 1,2,3/4,5 g2 2",
+        "par src range 0 g3 2",
+        "par src range 10 g3 2",
+        "par src.chunks range 10 g3 2",
+        "par src range 4 0-2,2-9 3",
+        "par src triple 5,6,7 0-2,2-9 2",
+        "par src node 9,8,7,6 g3 2",
+        "par src node 9,8,7,6 3-1,5-9 2",
+        "par src chunk - g3 2",
+        "par src chunk 1,2|3,4,5 g2 2",
+        "par src.chunks chunk 1,2|3,4,5 g2 2",
+        "par src chunk 1,2|_|_|3,4,5 g2 7",
+        "par src.chunks chunk 1,2|_|_|3,4,5 2-5 7",
+        "par src chunk _|_|1|_ g1 1",
+        "par src chunk 1,2|3,4,5 g2 0",
+        "par src chunk 1,2|3 1-9,0-1 2",
+        "par fold count - 1,2,3,8",
+        "par fold count 1,2,3,4 1,2,3,8",
+        "par fold sum_i64 9223372036854775807,1,-1 1",
+        "par fold sum_i64 1,9223372036854775807,-1 1",
+        "par fold sumf 9007199254740992,1,1 1",
+        "par fold sumf 1,1,9007199254740992 1",
+        "par fold min 1:0,1:1,1:2,1:3 1,2,3,8",
+        "par fold max 1:0,1:1,1:2,1:3 1,2,3,8",
+        "par fold min - 1,2",
+        "par fold try 1,2,3,4,5,6,7,8,9 1,2,3,8",
+        "par fold part 1,2,3,4,5,6,7,8,9 1,2,3,8",
+        "par fold fr 5,4,3,2,1 1,2,3,8",
+        "par fold frw 1,2,3,4 1,2,3,8",
+        "par fold frwbad 1,2,3,4 1",
+        "par fold frwbad 1 1",
+        "par fold stats 1,2,3 1,2,3,8",
+        "par fold stats 1,nan 1",
+        "par fold stats nan,1 1",
+        "par fold stats 1,nan,2,3 1",
+        "par fold stats - 1,8",
+        "par sched 2 d -",
+        "par sched 2 d f",
+        "par sched 2 d s0;s1;f;g0;g1;c0;c1",
+        "par sched 2 d s0;g0;c0;f",
+        "par sched 2 d s0;f;g0;p0.7;t1;c1;c0",
+        "par sched 2 d f;s0;g0;c0",
+        "par sched 1 d s0;t0;g0;c0;c0",
+        "par sched 4 n2x2 p1.1;p2.2;p3.3;t0;t0;t0",
+        "par sched 10 d p5.1;p9.2;t0;t6",
+        "par sched 0 d s0;G;f",
+    ] {
+        out.push(l.to_string());
+    }
+    for c in 0..cases {
+        out.push(format!("# case {} seed {}", c, seed));
+        gen_src(&mut r, out, &mut st);
+        gen_src(&mut r, out, &mut st);
+        gen_fold(&mut r, out, &mut st);
+        gen_sched(&mut r, out, &mut st);
+    }
+    if std::env::var("VH_STATS").is_ok() {
+        for (k, v) in &st {
+            eprintln!("{:32} {}", k, v);
+        }
+    }
 }
